@@ -18,6 +18,17 @@ pub fn gen_case(t: &mut Tape, tier: Tier) -> Option<Phys> {
     if g.nedges() < 2 {
         return None;
     }
+    let mut g = g;
+    if g.massive.iter().all(|&m| m) && t.chance(0.35) {
+        // large propagator powers: J becomes tiny (1e-3 .. 1e-12), probabilities stay O(1/E)
+        let f = t.uniform(2.0, 7.0);
+        let w2: Vec<f64> = g.weights.iter().map(|w| ((w * f) * 64.0).round() / 64.0).collect();
+        let old = std::mem::replace(&mut g.weights, w2);
+        // keep the overall degree of divergence inside the Gamma routine's documented shape range (C12: a <= 100)
+        if !(g.min_proper_omega() > 0.0 && g.dod() > 0.0 && g.dod() <= 90.0) {
+            g.weights = old;
+        }
+    }
     let kin = gen::gen_kin(t, &g, 1);
     let prof = gen::PointProfile { u_w: [0.15, 0.3, 0.3, 0.25], xi_w: [0.0, 1.0, 0.0, 0.0], lambda_tail: 0.0, bm_extreme: 0.0 };
     let (x, classes) = gen::gen_point(t, &g, &prof);
@@ -135,7 +146,7 @@ pub fn check(c: &Phys, ctx: &mut Ctx) -> Result<(), Failure> {
 }
 pub fn run(tier: Tier, seed: u64) -> i32 {
     let t0 = Instant::now();
-    let sp = Spec { id: "C06", rule: RULE, tape_len: 280, cases: tier.pick(30_000, 500_000), gen: gen_case, check, max_shrink_iters: 3000, shards: 16 };
+    let sp = Spec { id: "C06", rule: RULE, tape_len: 280, cases: tier.pick(150_000, 1_500_000), gen: gen_case, check, max_shrink_iters: 3000, shards: 16 };
     let mut stats = engine::run_spec(&sp, tier, seed);
     engine::run_regressions::<Phys>("C06", check, &mut stats);
     let extra = super::fuzzrun::maybe_fuzz("C06", "edge_select", tier, seed, &mut stats, serde_json::json!({}));
